@@ -13,6 +13,19 @@ import time
 from gx import common
 
 
+CORPUS = os.path.join(os.path.dirname(os.path.dirname(os.path.abspath(__file__))), "corpus")
+
+
+def corpus_entries(pid):
+  """Regression corpus of property `pid`: recorded lists of requested bundles (histories on which an earlier version
+  of the code under test - a seeded change or a since-repaired defect - violated the property), replayed first on
+  every run with the same oracles as the generated histories."""
+  d = os.path.join(CORPUS, pid)
+  if not os.path.isdir(d):
+    return []
+  return sorted(f[:-5] for f in os.listdir(d) if f.endswith(".json"))
+
+
 def _worker(args):
   (pid, seeds, cfg) = args
   common.setup_repo_path()
@@ -33,7 +46,12 @@ def _worker(args):
       mod, fn = hook.rsplit(".", 1)
       getattr(importlib.import_module(mod), fn)(h, cfg)
     try:
-      h.run()
+      if isinstance(seed, str) and seed.startswith("corpus:"):
+        with open(os.path.join(CORPUS, pid, seed[7:] + ".json")) as f:
+          h.run_corpus(json.load(f)["user_bundles"])
+        out["stats"]["corpus_histories"] = out["stats"].get("corpus_histories", 0) + 1
+      else:
+        h.run()
     except Exception as e:   # harness bug: report as infrastructure problem, not as a verdict
       import traceback
       out.setdefault("infra", []).append("seed %s: %s" % (seed, traceback.format_exc()[-800:]))
@@ -95,6 +113,8 @@ def run_histories(ck, cfg, n_quick=24, n_thorough=1600):
   """Returns the merged result dict."""
   n = n_quick if ck.tier == "quick" else n_thorough
   seeds = [ck.seed * 100000 + i for i in range(n)]
+  if cfg.get("corpus", True) and not cfg.get("_no_corpus"):
+    seeds = ["corpus:" + e for e in corpus_entries(ck.pid)] + seeds
   workers = min(16, os.cpu_count() or 1, max(1, n // 2))
   chunks = [seeds[i::workers] for i in range(workers)]
   args = [(ck.pid, c, cfg) for c in chunks if c]
